@@ -84,13 +84,46 @@ fn content_check(ctx: &mut Ctx, v: &Value, want: &M, what: &str) -> bool {
 
 /// build up to six handles that share arenas in different ways
 fn template(t: u64, r: &mut Rng) -> Vec<Value> {
-    let doc = DOCS[(t / 9) as usize % DOCS.len()];
-    let doc2 = DOCS[(t / 9 + 1) as usize % DOCS.len()];
+    let doc = DOCS[(t / 10) as usize % DOCS.len()];
+    let doc2 = DOCS[(t / 10 + 1) as usize % DOCS.len()];
     let _ = r;
-    match t % 9 {
+    match t % 10 {
+        9 => {
+            // several documents through one deserializer, then a MALFORMED later document that
+            // allocates a lot before its error: the earlier values must stay valid
+            let mut big = String::from("[[");
+            for i in 0..400 {
+                big.push_str(&format!("\"string number {} ...............\",{},", i, i));
+            }
+            big.push_str("0],{\"k\":[1,2,3]}, x");
+            let text = format!("{} {} {} {}", doc, doc2, doc, big);
+            let mut de = Deserializer::from_str(&text);
+            let mut out = vec![];
+            for _ in 0..3 {
+                out.push(de.deserialize::<Value>().unwrap());
+            }
+            let bad = de.deserialize::<Value>();
+            assert!(bad.is_err());
+            let bad2 = de.deserialize::<Value>();
+            let _ = bad2.is_err();
+            let c = out[1].clone();
+            out.push(c);
+            // the same through a stream
+            let mut st = Deserializer::from_str(&text).into_stream::<Value>();
+            let a = st.next().unwrap().unwrap();
+            let b = st.next().unwrap().unwrap();
+            let _ = st.next();
+            let e = st.next();
+            assert!(matches!(e, Some(Err(_))));
+            drop(st);
+            out.push(a);
+            out.push(b);
+            out.truncate(6);
+            out
+        }
         8 => {
             // scalar roots, default and raw-number mode, whole-input and embedded, plus clones
-            let k = (t / 9) as usize;
+            let k = (t / 10) as usize;
             let s1 = SCALAR_DOCS[k % SCALAR_DOCS.len()];
             let s2 = SCALAR_DOCS[(k + 1) % SCALAR_DOCS.len()];
             let a = Deserializer::from_str(s1).use_rawnumber().deserialize::<Value>().unwrap();
@@ -469,7 +502,7 @@ impl Check for C16 {
     }
     fn generate(&self, g: &GenParams, emit: &mut dyn FnMut(Case)) {
         // all drop permutations of every template (<= 6 handles: 720 orders)
-        let ntemplates = 9 * SCALAR_DOCS.len() as u64;
+        let ntemplates = 10 * SCALAR_DOCS.len() as u64;
         let mut idx = 0u64;
         for t in 0..ntemplates {
             for blk in 0..6u64 {
@@ -521,7 +554,7 @@ impl Check for C16 {
                     }
                 }
                 ctx.class("mode:all-drop-permutations");
-                ctx.class(&format!("template:{}", t % 9));
+                ctx.class(&format!("template:{}", t % 10));
                 ctx.sample("permutations");
             }
             "history" => {
@@ -535,7 +568,7 @@ impl Check for C16 {
         }
     }
     fn required_classes(&self, b: &str, _t: Tier) -> Vec<&'static str> {
-        let mut v = vec!["mode:all-drop-permutations", "mode:random-history", "mode:threads", "drop:on-other-thread", "op:parse", "op:thread", "template:2", "template:4", "template:5", "template:8"];
+        let mut v = vec!["mode:all-drop-permutations", "mode:random-history", "mode:threads", "drop:on-other-thread", "op:parse", "op:thread", "template:2", "template:4", "template:5", "template:8", "template:9"];
         if b == "native-rel" {
             v.push("ledger:arena-checked");
             v.push("ledger:alloc-checked");
